@@ -8,7 +8,7 @@ use rml_rtmp::sessions::verif_set_elapsed_ms;
 use rml_rtmp::sessions::{ClientSession, ClientSessionConfig, ClientSessionError, ClientSessionEvent, ClientSessionResult, PublishRequestType};
 use rml_rtmp::time::RtmpTimestamp;
 
-fn show_event(e: &ClientSessionEvent) -> String {
+pub fn show_event(e: &ClientSessionEvent) -> String {
     use rml_rtmp::sessions::ClientSessionEvent::*;
     match e {
         ConnectionRequestAccepted => "E:ConnAccepted".into(),
@@ -38,7 +38,7 @@ fn show_event(e: &ClientSessionEvent) -> String {
     }
 }
 
-fn show_err(e: &ClientSessionError) -> String {
+pub fn show_err(e: &ClientSessionError) -> String {
     match e {
         ClientSessionError::ChunkDeserializationError(x) => format!("ERR:ChunkDe:{}", crate::c_chunk::de_err(x)),
         ClientSessionError::ChunkSerializationError(x) => format!("ERR:ChunkSer:{}", crate::c_chunk::ser_err(x)),
